@@ -2,7 +2,7 @@
       restrict / substitute (plain BDD kind) are satisfiable and every outcome occurs
 
     On the table [ex3] of Mgr/OomExamples.v (3 levels, 6 nodes: x2, x1, x0,
-    x1 /\ x2, x0 /\ x1 /\ x2, ite(x0, x1, x1 /\ x2)) and on the sparse table [exq]
+    x1 /\ x2, x0 /\ x1 /\ x2, ite(x0, x1, x1 /\ x2)) and on the sparse table [exsp]
     (x2 and x0 /\ x2 only: the variables of levels 0 and 1 have no node, so
     [substitute_prepare] has to create them) the bounded runs really return
     out-of-memory for small capacities - with a table that differs from the
@@ -107,9 +107,9 @@ Proof.
   - intros Hcap. destruct A2 as [s' [[] [E F]]]; [lia|]. exists s'. split; assumption.
 Qed.
 
-(** ** [exq]: substitution with variables that have no node yet *)
+(** ** [exsp]: substitution with variables that have no node yet *)
 
-Definition exq : snap :=
+Definition exsp : snap :=
   mkSnap KBdd
     (PositiveMap.add 2%positive (mkNode 0 [E (RN 1); E (RT 0)] 0 1)
     (PositiveMap.add 1%positive (mkNode 2 [E (RT 1); E (RT 0)] 2 2)
@@ -118,7 +118,7 @@ Definition exq : snap :=
     [0; 1; 2] [0; 1; 2]
     [(0%N, E (RN 2)); (1%N, E (RN 1))].
 
-Example exq_ok : BddOK exq /\ rc_exact_b exq [] = true /\ node_count exq = 2.
+Example exsp_ok : BddOK exsp /\ rc_exact_b exsp [] = true /\ node_count exsp = 2.
 Proof.
   split; [apply bdd_ok_b_spec; vm_compute; reflexivity|]. split; vm_compute; reflexivity.
 Qed.
@@ -127,40 +127,40 @@ Qed.
     of levels 0 and 1 (the result is the existing x0 /\ x2): with a full store
     it fails at once, with one free slot after having created the variable
     node of level 0 - [GOom] carries that table - with two it succeeds *)
-Example exq_subst :
-  map (fun cap => outq (qrun_nc cap false exq (KSubst (RN 2) [(2, RN 2)] 0%N))) [0; 2; 3; 4; 5] =
+Example exsp_subst :
+  map (fun cap => outq (qrun_nc cap false exsp (KSubst (RN 2) [(2, RN 2)] 0%N))) [0; 2; 3; 4; 5] =
   [(1, Some 2, None); (1, Some 2, None); (1, Some 3, None); (0, Some 4, Some (RN 2)); (0, Some 4, Some (RN 2))].
 Proof. vm_compute. reflexivity. Qed.
 
-Example exq_subst_garbage :
-  match qrun_nc 3 false exq (KSubst (RN 2) [(2, RN 2)] 0%N) with
+Example exsp_subst_garbage :
+  match qrun_nc 3 false exsp (KSubst (RN 2) [(2, RN 2)] 0%N) with
   | GOom s' _ =>
-      s_handles s' = s_handles exq /\ bdd_ok_b s' = true /\
+      s_handles s' = s_handles exsp /\ bdd_ok_b s' = true /\
       map fst (PositiveMap.elements (s_nodes s')) = [2; 1; 3]%positive /\
       find_node s' 3 = Some (mkNode 0 [E (RT 1); E (RT 0)] 0 0)
   | _ => False
   end.
 Proof. vm_compute. repeat split; reflexivity. Qed.
 
-Example exq_call_ok : qcall_ok (sg_one [(2, RN 2)]) exq (KSubst (RN 2) [(2, RN 2)] 0%N).
+Example exsp_call_ok : qcall_ok (sg_one [(2, RN 2)]) exsp (KSubst (RN 2) [(2, RN 2)] 0%N).
 Proof.
-  assert (R : ref_ok exq (RN 2)) by (eexists; vm_compute; reflexivity).
+  assert (R : ref_ok exsp (RN 2)) by (eexists; vm_compute; reflexivity).
   split; [exact R|]. split; [repeat constructor; simpl; tauto|]. split; [|reflexivity].
   intros v r [E|[]]. inversion E; subst. split; [vm_compute; lia | exact R].
 Qed.
 
-Example exq_exact : forall cap p,
+Example exsp_exact : forall cap p,
   let k := KSubst (RN 2) [(2, RN 2)] 0%N in
-  (4 <= cap -> exists su, qrun_nc cap p exq k = GOk su tt (RN 2) /\ node_count su = 4) /\
-  (cap < 4 -> exists s', qrun_nc cap p exq k = GOom s' tt /\
-                         qfailed_ok unit nc_get (sg_one [(2, RN 2)]) cap exq s' tt).
+  (4 <= cap -> exists su, qrun_nc cap p exsp k = GOk su tt (RN 2) /\ node_count su = 4) /\
+  (cap < 4 -> exists s', qrun_nc cap p exsp k = GOom s' tt /\
+                         qfailed_ok unit nc_get (sg_one [(2, RN 2)]) cap exsp s' tt).
 Proof.
   intros cap p k.
   destruct (qoom_exact gt_none unit nc_get nc_add nc_lossy (sg_one [(2, RN 2)]) cap (fun _ => p) (fun _ => p)
-              exq tt k (proj1 exq_ok) (nc_qok _ _) exq_call_ok)
+              exsp tt k (proj1 exsp_ok) (nc_qok _ _) exsp_call_ok)
     as [su [cu [ru [Eu [_ [A1 A2]]]]]].
   assert (Hn : node_count su = 4 /\ ru = RN 2) by (vm_compute in Eu; inversion Eu; split; vm_compute; reflexivity).
-  destruct Hn as [Hn ->]. destruct cu. rewrite Hn in A1, A2. change (node_count exq) with 2 in A1, A2. split.
+  destruct Hn as [Hn ->]. destruct cu. rewrite Hn in A1, A2. change (node_count exsp) with 2 in A1, A2. split.
   - intros Hcap. exists su. split; [apply A1; lia | exact Hn].
   - intros Hcap. destruct A2 as [s' [[] [E F]]]; [lia|]. exists s'. split; assumption.
 Qed.
